@@ -34,7 +34,7 @@ fn mkdoc(s: &str) -> TextDocument {
 }
 '''
 
-DOCS_QUICK = ['', 'ab', 'a\nb', 'a\r\nb', 'aé\nb\U0001F600', 'a€']
+DOCS_QUICK = ['', 'ab', 'a\nb', 'a\r\nb', 'aé\nb\U0001F600', 'a€', 'a\U0001F600b\n']
 ALPHA = ['a', '\n', '\r', 'é', '€', '\U0001F600']
 
 
